@@ -109,8 +109,8 @@ Theorem C07_vsqs_offsets :
 Proof. exact vsqs_offsets. Qed.
 Print Assumptions C07_vsqs_offsets.
 
-(* 5b. a parameter that is exactly zero at build time drops gates; the next update indexes past the
-       end of circuit._variational_gates *)
+(* 5b. a parameter that is exactly zero at build time drops gates; with the update as first written the next
+       update indexes past the end of circuit._variational_gates (old variant; see 5d for the current code) *)
 Definition vz_gb (t c : nat) : option nat := if t * c =? 0 then None else Some (t * c).
 Theorem C07_vsqs_zero_param_refuted :
   exists (c : vsqs_cfg nat) (th0 th1 : list nat),
@@ -121,6 +121,35 @@ Proof.
   exists (VCfg nat [1] [2] None false 1), [0; 1], [1; 1]. vm_compute. repeat split. lia.
 Qed.
 Print Assumptions C07_vsqs_zero_param_refuted.
+
+(* 5c. the repaired update_var_params (size test + offset n_ref = len(variational gates) - n_var_gates*(intervals-1)):
+       for ANY variational gates `pre` of a user-supplied reference circuit, all interval counts, both Trotter
+       orders, optional navigator: a vector of the advertised length writes exactly the VSQS segment, any other
+       length is rejected — given that build_circuit emitted all gates (no_drop) *)
+Theorem C07_vsqs_offsets_any_reference :
+  forall (T C V : Type) (gu : T -> C -> V) (gb : T -> C -> option V) (c : vsqs_cfg C) (pre : list V) th0 th d,
+    no_drop T C V gb c th0 d ->
+    (length th = vsqs_n_var_params C c ->
+       vsqs_update_fixed T C V gu c (pre ++ vsqs_build T C V gb c th0 d)%list th
+       = Ok (pre ++ vsqs_layout T C c gu th d)%list)
+    /\ (length th <> vsqs_n_var_params C c ->
+       vsqs_update_fixed T C V gu c (pre ++ vsqs_build T C V gb c th0 d)%list th = Err ValueError).
+Proof. exact vsqs_offsets_any_reference. Qed.
+Print Assumptions C07_vsqs_offsets_any_reference.
+
+(* 5d. no_drop is still needed on the repaired code: after a build with a zero parameter n_ref is negative, the
+       writes wrap around (Python negative indices): no exception any more, but a 1-gate circuit where a fresh
+       build has 2 gates *)
+Theorem C07_vsqs_zero_param_refuted_repaired_offsets :
+  exists (c : vsqs_cfg nat) (th0 th1 : list nat) v,
+    length th0 = vsqs_n_var_params nat c /\ length th1 = vsqs_n_var_params nat c /\
+    vsqs_update_fixed nat nat nat Nat.mul c (vsqs_build nat nat nat vz_gb c th0 0) th1 = Ok v /\
+    v <> vsqs_build nat nat nat vz_gb c th1 0.
+Proof.
+  exists (VCfg nat [1] [2] None false 1), [0; 1], [1; 1]. eexists. vm_compute.
+  split; [reflexivity|]. split; [reflexivity|]. split; [reflexivity|]. intros H; discriminate H.
+Qed.
+Print Assumptions C07_vsqs_zero_param_refuted_repaired_offsets.
 
 (* 6. pUCCD: first-fit layer packing is a permutation of the excitations (all sizes, all lists);
       an update of n_occ*n_virt parameters succeeds, overwrites every gate, and gate j of the packed
@@ -215,7 +244,7 @@ Example C07_fixed_offset_refuted :
   /\ twrite exc nat nat exc_eqb (fun c => c) (number 2 [(0, 4); (1, 4)]) [((0, 4), 7); ((1, 4), 8)] ([] ++ [1; 2])%list
     = Err IndexError.
 Proof. vm_compute. split; reflexivity. Qed.
-(* VSQS as written indexes circuit._variational_gates from 0: with a reference circuit that has a
+(* VSQS as FIRST written (before fix 7da6b27; kept on the old variant vsqs_update) indexed circuit._variational_gates from 0: with a reference circuit that has a
    variational gate (99) the schedule is written over it and the last ansatz gate keeps its old value *)
 Example C07_vsqs_variational_reference_refuted :
   vsqs_update nat nat nat Nat.mul (VCfg nat [1] [2] None false 1) ([99] ++ [7; 7])%list [3; 4] = Ok [3; 8; 7]
